@@ -112,6 +112,8 @@ def build_store_project(root, scn):
         if g.get("dirty"):
             with open(os.path.join(root, "f.txt"), "a") as f:
                 f.write("dirty\n")
+            if g.get("dirty") == "staged":
+                P.git(root, "add", "-A")
         return commits
     return []
 
@@ -380,8 +382,18 @@ def run_history(scn):
                     elif a[0] == "dirty":
                         with open(os.path.join(root, "f.txt"), "a") as f:
                             f.write("dirty\n")
+                    elif a[0] == "stage":
+                        # everything changed so far goes to the index: the work tree equals the index, not HEAD
+                        P.git(root, "add", "-A")
+                    elif a[0] == "staged_new":
+                        with open(os.path.join(root, "g%d.txt" % len(steps)), "w") as f:
+                            f.write("new tracked file\n")
+                        P.git(root, "add", "-A")
+                    elif a[0] == "untracked":
+                        with open(os.path.join(root, "u%d.tmp" % len(steps)), "w") as f:
+                            f.write("untracked\n")
                     elif a[0] == "clean":
-                        P.git(root, "checkout", "-q", "--", "f.txt")
+                        P.git(root, "reset", "-q", "--hard", "HEAD")
                 continue
             if cmd == "damage":
                 damage_archive(os.path.join(root, st["archive"]), st["how"], st.get("arg"))
